@@ -472,6 +472,7 @@ fn run_history(mut dec0: Dec, record: bool, slot: u64, with_faults: bool, big: b
             };
             let before_faults = faults.hard_fired.get();
             let mut expect: Option<Tree> = None; // model after the operation if it returns Ok
+            let mut ok_impossible: Option<String> = None; // Ok cannot satisfy the post-condition
             let mut read_check: Option<(Vec<u8>, Vec<u8>)> = None;
             let res: Result<(), String> = match &op {
                 Op::Populate { path, entries, depth } => {
@@ -554,6 +555,16 @@ fn run_history(mut dec0: Dec, record: bool, slot: u64, with_faults: bool, big: b
                             acc.push(b'/');
                         }
                         acc.extend(c);
+                        // "the directory and all its ancestors exist": a component that exists as
+                        // something that is not (and does not lead to) a directory rules Ok out
+                        let blocked = match m.get(&acc) {
+                            Some(Node::File(_) | Node::Fifo) => true,
+                            Some(Node::Link(_)) => !root.join(std::ffi::OsStr::from_bytes(&acc)).is_dir(),
+                            _ => false,
+                        };
+                        if blocked && ok_impossible.is_none() {
+                            ok_impossible = Some(format!("'{}' exists and is a {}", String::from_utf8_lossy(&acc[..acc.len().min(60)]), node_kind(&m[&acc])));
+                        }
                         m.entry(acc.clone()).or_insert(Node::Dir);
                     }
                     expect = Some(m);
@@ -734,6 +745,10 @@ fn run_history(mut dec0: Dec, record: bool, slot: u64, with_faults: bool, big: b
                 Ok(()) => {
                     if hard_now && !matches!(op, Op::Exists { .. }) {
                         viol = Some(Violation { sig: format!("{label}|error-swallowed"), detail: format!("{label}: a system call failed with a hard error but the operation returned Ok") });
+                        break;
+                    }
+                    if let Some(why) = &ok_impossible {
+                        viol = Some(Violation { sig: format!("{label}|ok-but-not-a-directory"), detail: format!("{label} returned Ok [{tag}] although {why}: the named directory does not exist afterwards") });
                         break;
                     }
                     if let Some((p, got)) = read_check {
